@@ -458,6 +458,8 @@ func Install() {
 			return bw, err
 		}
 		w.emit("TableCreate", trace.F{"fam": fam, "num": n})
+		// the file exists now: whatever protects it from the obsolete-file cleanup must already be in place
+		w.gate("table-created")
 		return &tableWriter{BufioWriter: bw, w: w, path: fileName, fam: fam, num: n}, nil
 	})
 	kv.VerifSetSeams(kv.VerifSeams{
